@@ -130,14 +130,15 @@ def run_loader(sim, memory, tracer, address, max_steps=80):
 
 
 def check_loader(item):
-    """('loader', number of bytes)"""
-    _, N = item
+    """('loader', number of bytes[, loading screen length])"""
+    N = item[1]
+    scrlen = item[2] if len(item) > 2 else 0
     st = Stats()
     res = new_res()
     import skoolkit.bin2tap as b2t
     import skoolkit.loadtracer as lt
     import skoolkit.simulator as sm
-    name = 'bin2tap loader (no CLEAR), %d byte(s)' % N
+    name = 'bin2tap loader (no CLEAR), %d byte(s)%s' % (N, ', loading screen of %d bytes' % scrlen if scrlen else '')
     mem = RomMem('mem', 65536)
     sim = sm.Simulator(mem, config={'frame_duration': 69888, 'int_active': 32})
     state = {}
@@ -156,28 +157,36 @@ def check_loader(item):
         real = b2t.write_tap
         b2t.write_tap = lambda f, blocks: captured.append(blocks)
         try:
-            b2t.run(list(ram), None, org, start, stack, 'prog.tap', None, None, None, None)
+            b2t.run(list(ram), None, org, start, stack, 'prog.tap', ([(7 * i) % 256 for i in range(scrlen)] if scrlen else None), None, None, None)
         finally:
             b2t.write_tap = real
         blocks = captured[0]
         hdr, loader, data = blocks[2], blocks[3], blocks[4]
-        address = hdr[14] + 256 * hdr[15]
-        if address != LOADER:
+        address = hdr[14] + 256 * hdr[15]          # where LOAD ""CODE puts the block (screen + loader); BASIC then runs 23296
+        if not isinstance(address, int) or not 16384 <= address <= LOADER:
             raise HarnessError('loader address %r' % (address,))
-        mem0 = z3.Array('mem', z3.BitVecSort(16), z3.BitVecSort(8))
+        block = loader[1:-1]
+        if scrlen:
+            # the screen bytes play no part in the execution: only the 19 bytes of loader code that end the block are placed
+            # (at the position the block's header gives them); the rest of RAM is zero, so a loader that is not where BASIC
+            # jumps to runs into NOPs and never finishes
+            mem0 = z3.K(z3.BitVecSort(16), z3.BitVecVal(0, 8))
+            address, block = address + len(block) - 19, block[-19:]
+        else:
+            mem0 = z3.Array('mem', z3.BitVecSort(16), z3.BitVecSort(8))
         mem.arr = mem0
         mem.writes = []
-        for k, b in enumerate(loader[1:-1]):
+        for k, b in enumerate(block):
             mem[address + k] = b
         pre = mem.arr
         sim.registers[:] = [0] * 30
         sim.registers[12] = 0xFF40          # BASIC's stack when RANDOMIZE USR 23296 runs
-        sim.registers[24] = address
+        sim.registers[24] = LOADER
         sim.registers[26] = 1
         sim.registers[27] = 1
         tracer = make_tracer(lt, sim, data)
         sim.set_tracer(tracer, False, False)
-        steps = run_loader(sim, mem, tracer, address)
+        steps = run_loader(sim, mem, tracer, LOADER)
         state.update(org=org, start=start, stack=stack, ram=ram, pre=pre)
         return steps
 
@@ -192,7 +201,7 @@ def check_loader(item):
             v = {}
             if mod is not None:
                 v = {str(d): mod[d].as_long() for d in mod.decls() if hasattr(mod[d], 'as_long') and str(d) in ('org', 'start', 'stack') or str(d).startswith('d')}
-            case = dict(kind='loader', n=N, org=v.get('org', 32768), start=v.get('start', 32768), stack=v.get('stack', 32768), data=[v.get('d%d' % i, 0) for i in range(N)])
+            case = dict(kind='loader', n=N, scrlen=scrlen, org=v.get('org', 32768), start=v.get('start', 32768), stack=v.get('stack', 32768), data=[v.get('d%d' % i, 0) for i in range(N)])
             res['violations'].append(dict(key='%s:exception:%s' % (name, type(out[1]).__name__), text='%s raises %r with %r' % (name, out[1], case), case=case))
             return
         org, start, stack, ram = state['org'], state['start'], state['stack'], state['ram']
@@ -212,7 +221,7 @@ def check_loader(item):
             if mod is None:
                 r, mod = p.check(model=True); which = ['side obligation']
             v = vals(mod)
-            res['violations'].append(dict(key='%s:%s' % (name, which[0][:40]), text='%s: %s with %r' % (name, '; '.join(which[:3]), v), case=dict(kind='loader', n=N, **v)))
+            res['violations'].append(dict(key='%s:%s' % (name, which[0][:40]), text='%s: %s with %r' % (name, '; '.join(which[:3]), v), case=dict(kind='loader', n=N, scrlen=scrlen, **v)))
             return
         res['discharged'] += 1
         res['nontrivial'] += 1
@@ -291,7 +300,7 @@ def check_banks(item):
         start = sym_int('start', 0, 65535)
         banks = {}
         syms = {}
-        for b in bankset:
+        for b in reversed(bankset):         # (a dict that is not in ascending order: run() must sort it)
             data = [(b * 37 + i) % 256 for i in range(16384)]
             for pos in (0, 1, 8191, 16383):
                 v = sym_int('b%d_%d' % (b, pos), 0, 255)
@@ -364,7 +373,7 @@ def replay_banks(case):
     lt.write_line = lambda *a: None
     loader_addr, o7, bankset = case['item']
     start = case.get('start', 32768)
-    banks = {b: [(b * 37 + i) % 256 for i in range(16384)] for b in bankset}
+    banks = {b: [(b * 37 + i) % 256 for i in range(16384)] for b in reversed(bankset)}
     captured = []
     real = b2t.write_tap
     b2t.write_tap = lambda f, blocks: captured.append(blocks)
@@ -419,7 +428,8 @@ def replay(case):
     real = b2t.write_tap
     b2t.write_tap = lambda f, blocks: captured.append(blocks)
     try:
-        b2t.run(list(ram), None, org, start, stack, 'prog.tap', None, None, None, None)
+        scrlen = case.get('scrlen', 0)
+        b2t.run(list(ram), None, org, start, stack, 'prog.tap', ([(7 * i) % 256 for i in range(scrlen)] if scrlen else None), None, None, None)
     except Exception as e:
         return True, 'bin2tap.run raises %r' % e
     finally:
@@ -431,15 +441,17 @@ def replay(case):
     memory[address:address + len(loader) - 2] = loader[1:-1]
     sim = sm.Simulator(memory, config={'frame_duration': 69888, 'int_active': 32})
     sim.registers[12] = 0xFF40
-    sim.registers[24] = address
+    sim.registers[24] = LOADER             # BASIC runs RANDOMIZE USR 23296
     sim.registers[26] = 1
     sim.registers[27] = 1
     tracer = make_tracer(lt, sim, data)
     sim.set_tracer(tracer, False, False)
     regs = sim.registers
     try:
-        for n in range(200):
+        for n in range(300):
             pc = regs[24]
+            if n and pc == start and regs[12] == stack:
+                break                       # the loader has handed over to the program
             if n and not (pc < 0x4000 or LOADER <= pc < LOADER + 24):
                 break
             if pc == 0x0556:
@@ -468,6 +480,7 @@ def main():
         print(('REPRODUCED: ' if ok else 'not reproduced: ') + detail)
         return 1 if ok else 0
     items = [('loader', n) for n in ((1, 2, 3, 5) if args.tier == 'quick' else (1, 2, 3, 4, 5, 6, 8))]
+    items += [('loader', 2, 6912), ('loader', 2, 6144)]        # with a loading screen (full, and pixels only: padded to 6912)
     for la in ((32768, 33000, 24577) if args.tier == 'quick' else (32768, 33000, 24577, 33241, 48000, 27000, 32986)):
         for o7 in ((0, 17) if args.tier == 'quick' else (0, 1, 7, 16, 17, 23)):
             for bs in (((0,), (1, 3)) if args.tier == 'quick' else ((0,), (1, 3), (7,), (0, 1, 3, 4, 6, 7))):
